@@ -69,7 +69,23 @@ func validFile(r *rand.Rand) *elfgen.File {
 
 // makeInput produces file content and a class label.
 func makeInput(r *rand.Rand) ([]byte, string) {
-	switch k := r.Intn(120); {
+	switch k := r.Intn(130); {
+	case k >= 120:
+		// code whose length is not a multiple of the instruction size: 1-3 trailing bytes
+		// that look like the beginning of an instruction (opcodes identified by their
+		// first byte or two), or garbage; in .text alone or followed by another section
+		f := validFile(r)
+		tails := [][]byte{{0x37}, {0x17}, {0x6f}, {0x13, 0x00}, {0x03, 0x20, 0x05}, {0x63, 0x00}, {0x23, 0x20, 0x00}, {0x67, 0x80}, {0xef}, {0x33}, {0xff, 0xff}, {0x00}}
+		tail := tails[r.Intn(len(tails))]
+		if r.Intn(4) == 0 {
+			tail = make([]byte, 1+r.Intn(3))
+			r.Read(tail)
+		}
+		code := append(append([]byte(nil), f.Secs[0].Data...), tail...)
+		f.Secs[0].Data, f.Secs[0].Size = code, uint64(len(code))
+		f.Segs[0].Data, f.Segs[0].Filesz, f.Segs[0].Memsz = code, uint64(len(code)), uint64(len(code))
+		bs, _ := f.Bytes()
+		return bs, "ragged-code"
 	case k >= 110:
 		// entry point anywhere around the code: inside every instruction (also the last
 		// one of a block and of the image), at the end, outside, zero
@@ -352,7 +368,7 @@ func min(a, b int) int {
 func main() {
 	mon.Main(mon.Spec{
 		Prop: "C26",
-		Rule: "case = input file and argument vector: valid RV64 ELF files around generated programs, truncations (random and at structural boundaries), header bit flips, non-RISC-V code, huge segment/section sizes, entry points at every offset in and around the code (inside any instruction incl. the last of a block), constant jumps/branches rewritten to arbitrary even offsets (into the middle of instructions, behind the end), random ELF models, non-ELF content, empty file, directory, missing path, 0 and 2 arguments; the first 400 (thorough 8000) cases run the production binary under a pty with window heights {1,2,5,8,24,40,80} and a quit script, the rest run the identical loading pipeline in-process (10 files per case); non-trivial = binary run that ended (error exit or UI entered), or in-process file that reached instruction parsing; distinct by content",
+		Rule: "case = input file and argument vector: valid RV64 ELF files around generated programs, truncations (random and at structural boundaries), header bit flips, non-RISC-V code, huge segment/section sizes, entry points at every offset in and around the code (inside any instruction incl. the last of a block), constant jumps/branches rewritten to arbitrary even offsets (into the middle of instructions, behind the end), code sections with 1-3 trailing bytes that begin an instruction, random ELF models, non-ELF content, empty file, directory, missing path, 0 and 2 arguments; the first 400 (thorough 8000) cases run the production binary under a pty with window heights {1,2,5,8,24,40,80} and a quit script, the rest run the identical loading pipeline in-process (10 files per case); non-trivial = binary run that ended (error exit or UI entered), or in-process file that reached instruction parsing; distinct by content",
 		Explanation: "oracle: the production binary (built from the tree under test with the hook guard off) must not die by a signal or with a Go crash, must print 'mltwist: ...' when exiting non-zero, and must have entered the UI when exiting zero; hung runs are counted, not judged; in-process: elf.NewParser -> MachineCode -> Memory -> parser.Parse -> deps.NewCode -> memory.NewBytes must not panic",
 		Assumptions: []string{"binary runs under ulimit -v 2 GiB and a 20 s watchdog", "pty via /dev/ptmx"},
 		Cases: func(t string) int {
@@ -370,7 +386,7 @@ func main() {
 		ParentSetup:    parentSetup,
 		ChildSetup:     childSetup,
 		RlimitAS:       6 << 30,
-		RequiredCounts: []string{"inprocess_bad-entry", "inprocess_wild-jumps", "binary_ui_entered", "binary_error_exits", "inprocess_reached_ui", "inprocess_reached_parse", "binary_runs_valid", "binary_runs_truncated", "binary_runs_bitflip"},
+		RequiredCounts: []string{"inprocess_bad-entry", "inprocess_wild-jumps", "inprocess_ragged-code", "binary_ui_entered", "binary_error_exits", "inprocess_reached_ui", "inprocess_reached_parse", "binary_runs_valid", "binary_runs_truncated", "binary_runs_bitflip"},
 		Run:            run,
 	})
 }
